@@ -775,6 +775,18 @@ pub fn run(tier: Tier) -> Report {
             }
         }
     }
+    // the five named source formats, signalled in PTYPE and in OPPTYPE
+    for fmt in 1..=5u8 {
+        if fmt == 5 && !tier.thorough() {
+            continue;
+        }
+        for inter in [false, true] {
+            std_cases.push(StdHdr::baseline(fmt, inter, 0x20 | fmt, 7));
+            let mut o = StdHdr::custom(16, 16, inter, 0x30 | fmt, 9);
+            o.plus.as_mut().unwrap().opp.srcfmt = fmt;
+            std_cases.push(o);
+        }
+    }
     // custom picture formats over the lattice of multiples of four
     {
         let dims: Vec<u16> = dim_lattice().into_iter().filter(|d| *d < 4096).flat_map(|d| [d & !3, (d & !3) + 4]).filter(|d| (4..=2044).contains(d)).collect::<std::collections::BTreeSet<u16>>().into_iter().collect();
